@@ -21,6 +21,9 @@ RULE = (
     "valid run shorter than min_length; grid tuples count as evaluations, and as non-trivial "
     "when exactly one of the six reject conditions holds or none does (boundary tuples)."
 )
+RULE += (
+    ' Exhaustive reuse part: every accepted parameter tuple with max_length <= 3 (thorough: 4) x every earlier stream of 1..5 (6) frames x how it was left (list run, generator unstarted / advanced one token and abandoned, two generators requested up front) x every later stream of 1..4 (5) frames: the used tokenizer must satisfy the property like a fresh one.'
+)
 MUST_HIT = ["d1_shape", "d2_shape", "short_remainder", "grid_accept", "grid_reject"]
 ASSUMPTIONS = ["a token has max_length frames iff it was cut (follows from len<=max and eager cutting)"]
 
